@@ -502,6 +502,14 @@ type Contracts struct {
 	Axioms    []*SpecAxiom
 	Ghosts    map[string]*GhostVar
 	Order     []string
+	Guarded   map[string]string // heap key of a guarded field -> ghost lock variable
+}
+
+func pkgNameOf(path string) string {
+	if i := strings.LastIndex(path, "/"); i >= 0 {
+		return path[i+1:]
+	}
+	return path
 }
 
 var tagRe = regexp.MustCompile(`^(\w[\w-]*)\[([A-Za-z0-9_, ]+)\]`)
@@ -774,7 +782,7 @@ func (cs *Contracts) parseFile(pkg string, raw []rawClause) error {
 				}
 			case "at":
 				// at store X [in loop K]: assert[tags] e   |  at call f [#n]: assert e | at return: assert e
-				m := regexp.MustCompile(`^(stored|store|mapupdate|call|return|entry)\s*([\w.]*)\s*(?:#(\d+))?\s*(?:in loop (\d+))?\s*:\s*(\S+)\s+(.*)$`).FindStringSubmatch(rest)
+				m := regexp.MustCompile(`^(stored|store|mapupdate|call|return|entry)\s*([\w.$]*)\s*(?:#(\d+))?\s*(?:in loop (\d+))?\s*:\s*(\S+)\s+(.*)$`).FindStringSubmatch(rest)
 				if m == nil {
 					return fail("bad at clause")
 				}
@@ -914,6 +922,24 @@ func (cs *Contracts) parseSpecDecl(pkg, rest string, rc rawClause) error {
 			return fail("bad ghost decl")
 		}
 		cs.Ghosts[fs[1]] = &GhostVar{Name: fs[1], Type: strings.Join(fs[2:], " "), Pkg: pkg}
+	case strings.HasPrefix(rest, "guarded "):
+		// spec guarded T.f, T.g, ... by <ghost>: fields that may be read only with <ghost> >= 1 and written
+		// only with <ghost> == 2 (lock typestate); checked in functions whose contract says `safety[..] locks`
+		m := regexp.MustCompile(`^guarded\s+(.*)\s+by\s+(\w+)$`).FindStringSubmatch(rest)
+		if m == nil {
+			return fail("bad guarded declaration")
+		}
+		if cs.Guarded == nil {
+			cs.Guarded = map[string]string{}
+		}
+		for _, f := range strings.Split(m[1], ",") {
+			f = strings.TrimSpace(f)
+			if f == "" {
+				continue
+			}
+			// key as used by the heap model: F:<pkgname>.<Type>.<field>
+			cs.Guarded["F:"+pkgNameOf(pkg)+"."+f] = m[2]
+		}
 	default:
 		return fail("unknown spec declaration")
 	}
